@@ -9,6 +9,7 @@ import Dashu.Driver.Float
 import Dashu.Driver.Ratio
 import Dashu.Driver.Cross
 import Dashu.Model.Serde.Num
+import Dashu.Model.Serde.NumW
 import Dashu.Model.Serde.Log2Cfg
 /-
   Driver of group `cfg` (C19).  Cases are `cfg <conf> <op> <args…>` (evaluate `<op>` as the build
@@ -17,7 +18,8 @@ import Dashu.Model.Serde.Log2Cfg
   `cfgall <op> <args…>` (the models at W = 64 and W = 32 must agree, that common answer is printed).
 
   Inner ops: every op of the groups int / div / bits / text (their drivers, reused), `cfg.self`,
-  and the serde ops `sd.*` / `de.*` of `harness/src/ops_serde.rs`.
+  and the serde ops `sd.*` / `de.*` of `harness/src/ops_serde.rs` (binary medium: the word-level
+  definitions of `Model/Serde/NumW.lean` at the word size of the configuration, beside the `W`-free specification).
 -/
 namespace Dashu.Driver.Cfg
 open Dashu.IO Dashu.Driver Dashu.Model.Serde
@@ -40,29 +42,40 @@ def rt (stream : Bytes) (decoded : Option (String × Nat)) (expect : String) : S
     if s = expect then base else base ++ " !model-spec-mismatch spec=" ++ expect
   | none => ok (bytesStr stream ++ " err") ++ (if expect = "err" then "" else " !model-spec-mismatch spec=" ++ expect)
 
+/-- binary medium: `stream` / `decoded` come from the word-level definitions of `Model/Serde/NumW.lean` (what a
+    build with `W`-bit words executes); `spec` is the `W`-free stream of `Model/Serde/Num.lean` — they are proved
+    equal (`Props/C19 …_word_size_independent`), a difference is a defect of the model -/
+def rtW (stream spec : Bytes) (decoded : Option (String × Nat)) (expect : String) : String :=
+  rt stream decoded expect ++ (if stream = spec then "" else " !model-spec-mismatch spec-stream=" ++ bytesStr spec)
+
+
 def dec1 (r : Option (String × Nat)) : String :=
   match r with
   | some (s, rest) => ok (s ++ " rest=" ++ toString rest)
   | none => ok "err"
 
+/-- decoders: word-level answer, checked against the `W`-free decoder -/
+def dec1W (r spec : Option (String × Nat)) : String :=
+  dec1 r ++ (if r = spec then "" else " !model-spec-mismatch spec=" ++ dec1 spec)
+
 def floatBase (s : String) : Option Nat := do
   let b ← parseDecNat s
   if b = 2 ∨ b = 10 ∨ b = 16 ∨ b = 7 then some b else none
 
-def serde (op : String) (args : List String) : Option String :=
+def serde (W : Nat) (op : String) (args : List String) : Option String :=
   match op, args with
   | "sd.u", ["pc", a] => do
     let n ← parseNat a
-    let st := encU n
-    pure (rt st ((decU st).map fun (v, r) => (natToHex v, r.length)) (natToHex n))
+    let st := encUW W n
+    pure (rtW st (encU n) ((decUW W st).map fun (v, r) => (natToHex v, r.length)) (natToHex n))
   | "sd.u", ["json", a] => do
     let n ← parseNat a
     let st := jsonU n
     pure (rt st ((unjsonU st).map fun v => (natToHex v, 0)) (natToHex n))
   | "sd.i", ["pc", a] => do
     let z ← parseInt a
-    let st := encI z
-    pure (rt st ((decI st).map fun (v, r) => (intToHex v, r.length)) (intToHex z))
+    let st := encIW W z
+    pure (rtW st (encI z) ((decIW W st).map fun (v, r) => (intToHex v, r.length)) (intToHex z))
   | "sd.i", ["json", a] => do
     let z ← parseInt a
     let st := jsonI z
@@ -72,8 +85,8 @@ def serde (op : String) (args : List String) : Option String :=
     if d = 0 then pure (panic "DivideByZero") else
     let q := qreduce n d
     if m = "pc" then
-      let st := encQ q
-      pure (rt st ((decQ st).map fun (v, r) => (qvalStr v, r.length)) (qvalStr q))
+      let st := encQW W q
+      pure (rtW st (encQ q) ((decQW W st).map fun (v, r) => (qvalStr v, r.length)) (qvalStr q))
     else if m = "json" then
       let st := jsonQ q
       pure (rt st ((unjsonQ st).map fun v => (qvalStr v, 0)) (qvalStr q))
@@ -83,8 +96,8 @@ def serde (op : String) (args : List String) : Option String :=
     if d = 0 then pure (panic "DivideByZero") else
     let q := qreduce2 n d
     if m = "pc" then
-      let st := encQ q
-      pure (rt st ((decX st).map fun (v, r) => (qvalStr v, r.length)) (qvalStr q))
+      let st := encQW W q
+      pure (rtW st (encQ q) ((decXW W st).map fun (v, r) => (qvalStr v, r.length)) (qvalStr q))
     else if m = "json" then
       let st := jsonQ q
       pure (rt st ((unjsonX st).map fun v => (qvalStr v, 0)) (qvalStr q))
@@ -93,8 +106,8 @@ def serde (op : String) (args : List String) : Option String :=
     let B ← floatBase b; let s ← parseInt a; let e ← parseDec e
     let v ← fnew B s e
     if m = "pc" then
-      let st := encR v
-      pure (rt st ((decR B st).map fun (w, r) => (fvalStr w, r.length)) (fvalStr v))
+      let st := encRW W v
+      pure (rtW st (encR v) ((decRW W B st).map fun (w, r) => (fvalStr w, r.length)) (fvalStr v))
     else if m = "json" then
       let st := jsonR B v
       pure (rt st ((unjsonR B st).map fun w => (fvalStr w, 0)) (fvalStr v))
@@ -104,8 +117,8 @@ def serde (op : String) (args : List String) : Option String :=
     let v ← fnew B s e
     let f : FPVal := ⟨v.signif, v.exp, p⟩
     if m = "pc" then
-      let st := encF f
-      pure (rt st ((decF B st).map fun (w, r) => (fpvalStr w, r.length)) (fpvalStr f))
+      let st := encFW W f
+      pure (rtW st (encF f) ((decFW W B st).map fun (w, r) => (fpvalStr w, r.length)) (fpvalStr f))
     else if m = "json" then
       -- the text carries no precision: the number read back has the precision of the digits written
       let st := jsonR B v
@@ -119,8 +132,8 @@ def serde (op : String) (args : List String) : Option String :=
     let B ← floatBase b
     let v : FVal := ⟨0, if sg = "-" then -1 else 1⟩
     if m = "pc" then
-      let st := encR v
-      pure (rt st ((decR B st).map fun (w, r) => (fvalStr w, r.length)) (fvalStr v))
+      let st := encRW W v
+      pure (rtW st (encR v) ((decRW W B st).map fun (w, r) => (fvalStr w, r.length)) (fvalStr v))
     else if m = "json" then
       -- `inf` / `-inf` is not accepted by the parser: rejected with an error
       let st := jsonR B v
@@ -130,45 +143,45 @@ def serde (op : String) (args : List String) : Option String :=
     let B ← floatBase b
     let f : FPVal := ⟨0, if sg = "-" then -1 else 1, 0⟩
     if m = "pc" then
-      let st := encF f
-      pure (rt st ((decF B st).map fun (w, r) => (fpvalStr w, r.length)) (fpvalStr f))
+      let st := encFW W f
+      pure (rtW st (encF f) ((decFW W B st).map fun (w, r) => (fpvalStr w, r.length)) (fpvalStr f))
     else if m = "json" then
       let st := jsonR B ⟨f.signif, f.exp⟩
       pure (rt st ((unjsonF B st).map fun w => (fpvalStr w, 0)) "err")
     else none
   | "de.u", ["pc", s] => do
     let bs ← parseBytesN s
-    pure (dec1 ((decU bs).map fun (v, r) => (natToHex v, r.length)))
+    pure (dec1W ((decUW W bs).map fun (v, r) => (natToHex v, r.length)) ((decU bs).map fun (v, r) => (natToHex v, r.length)))
   | "de.u", ["json", s] => do
     let bs ← parseBytesN s
     pure (dec1 ((unjsonU bs).map fun v => (natToHex v, 0)))
   | "de.i", ["pc", s] => do
     let bs ← parseBytesN s
-    pure (dec1 ((decI bs).map fun (v, r) => (intToHex v, r.length)))
+    pure (dec1W ((decIW W bs).map fun (v, r) => (intToHex v, r.length)) ((decI bs).map fun (v, r) => (intToHex v, r.length)))
   | "de.i", ["json", s] => do
     let bs ← parseBytesN s
     pure (dec1 ((unjsonI bs).map fun v => (intToHex v, 0)))
   | "de.q", ["pc", s] => do
     let bs ← parseBytesN s
-    pure (dec1 ((decQ bs).map fun (v, r) => (qvalStr v, r.length)))
+    pure (dec1W ((decQW W bs).map fun (v, r) => (qvalStr v, r.length)) ((decQ bs).map fun (v, r) => (qvalStr v, r.length)))
   | "de.q", ["json", s] => do
     let bs ← parseBytesN s
     pure (dec1 ((unjsonQ bs).map fun v => (qvalStr v, 0)))
   | "de.x", ["pc", s] => do
     let bs ← parseBytesN s
-    pure (dec1 ((decX bs).map fun (v, r) => (qvalStr v, r.length)))
+    pure (dec1W ((decXW W bs).map fun (v, r) => (qvalStr v, r.length)) ((decX bs).map fun (v, r) => (qvalStr v, r.length)))
   | "de.x", ["json", s] => do
     let bs ← parseBytesN s
     pure (dec1 ((unjsonX bs).map fun v => (qvalStr v, 0)))
   | "de.r", ["pc", b, s] => do
     let B ← floatBase b; let bs ← parseBytesN s
-    pure (dec1 ((decR B bs).map fun (v, r) => (fvalStr v, r.length)))
+    pure (dec1W ((decRW W B bs).map fun (v, r) => (fvalStr v, r.length)) ((decR B bs).map fun (v, r) => (fvalStr v, r.length)))
   | "de.r", ["json", b, s] => do
     let B ← floatBase b; let bs ← parseBytesN s
     pure (dec1 ((unjsonR B bs).map fun v => (fvalStr v, 0)))
   | "de.f", ["pc", b, s] => do
     let B ← floatBase b; let bs ← parseBytesN s
-    pure (dec1 ((decF B bs).map fun (v, r) => (fpvalStr v, r.length)))
+    pure (dec1W ((decFW W B bs).map fun (v, r) => (fpvalStr v, r.length)) ((decF B bs).map fun (v, r) => (fpvalStr v, r.length)))
   | "de.f", ["json", b, s] => do
     let B ← floatBase b; let bs ← parseBytesN s
     pure (dec1 ((unjsonF B bs).map fun v => (fpvalStr v, 0)))
@@ -246,7 +259,7 @@ def inner (std : Bool) (W : Nat) (op : String) (args : List String) : Option Str
   match op.splitOn "/" with
   | [g, iop] => grouped std W g iop args
   | _ =>
-  match serde op args with
+  match serde W op args with
   | some r => some r
   | none =>
     match Int.dispatch W op args with
